@@ -2,7 +2,7 @@
 From Coq.Strings Require Import Byte String.
 From Coq Require Import List Arith NArith Bool.
 Import ListNotations.
-From V Require Import lib.Bytes lib.Sexp model.Ast model.Gen model.SourceMap spec.SmSpec model.ProxyCache.
+From V Require Import lib.Bytes lib.Sexp model.Ast model.Gen model.SourceMap spec.SmSpec model.ProxyCache model.GenOpts.
 Require Extraction.
 Require Import ExtrOcamlBasic.
 
@@ -34,7 +34,39 @@ Definition proxy_reply (a : list bytes) : list bytes :=
   flat_map (fun o => let '(h, c, g) := o in [show_opt h; show_opt (option_map show_tables c); show_opt g])
            (trace (fun t => lookup t tbl) pinit evs).
 
+(* "geno": the options given to generator.Generate, in order, as (constructor name, value) pairs after the AST wire:
+   WithVersion v | WithTimestamp d (d = the formatted date) | WithFileName n | WithSkipCodeGeneratedComment (value unused).
+   A name that is not one of the modelled constructors makes the whole request fail. *)
+Fixpoint opts_of (a : list bytes) : option (list gopt) :=
+  match a with
+  | k :: v :: r =>
+      match opts_of r with
+      | None => None
+      | Some l =>
+          if isf k "WithVersion" then Some (OVersion v :: l)
+          else if isf k "WithTimestamp" then Some (OTimestamp v :: l)
+          else if isf k "WithFileName" then Some (OFileName v :: l)
+          else if isf k "WithSkipCodeGeneratedComment" then Some (OSkipComment :: l)
+          else None
+      end
+  | [] => Some []
+  | _ => None
+  end.
+Definition show_bool (b : bool) : bytes := if b then bs "true" else bs "false".
+
 Definition dispatch (f : bytes) (a : list bytes) : list bytes :=
+  if isf f "geno" then
+    (* args: AST wire, then the option pairs.  reply: status, code, source map dump, literals (joined by LF), and the
+       GeneratorOptions record the options leave: Version, FileName, SkipCodeGeneratedComment, GeneratedDate *)
+    match parse_all (arg 0 a), opts_of (tl a) with
+    | Some x, Some os => match dfile x with
+                | Some fl => let '(code, lits, sm) := generate_all_o os fl in
+                             let o := apply_opts os in
+                             [bs "ok"; code; sm; join_with [x0a] lits; o_version o; o_fname o; show_bool (o_skip o); o_date o]
+                | None => [bs "decode-ast"] end
+    | None, _ => [bs "decode-sexp"]
+    | _, None => [bs "bad-option"] end
+  else
   if isf f "gen" then
     (* args: file name, AST wire.  reply: status, code, source map dump, literals (joined by LF) *)
     match parse_all (arg 1 a) with
